@@ -1,7 +1,7 @@
 (* C13 -- data-parallel utilities equal their sequential definition: the property theorems.
    Models: Util/Reduce.v, Util/Sort.v, Util/Allpairs.v (extracted and compared with the real code on every run). *)
 From Coq Require Import List Arith NArith ZArith Permutation.
-From QV Require Import Util.Reduce Util.ReduceProofs Util.Sort Util.SortProofs Util.Allpairs Util.AllpairsProofs.
+From QV Require Import Util.Reduce Util.ReduceProofs Util.Sort Util.SortProofs Util.SortCorrect Util.Allpairs Util.AllpairsProofs.
 Import ListNotations.
 
 (* the worker ranges of qt_loopaccum_balance_inner tile [start,stop): non-empty, consecutive, min(len,workers) of them,
@@ -103,6 +103,62 @@ Theorem qsort_terminates_partial : forall (V : Type) (leb : V -> V -> bool) (dfl
   qsort_inner_gen V leb dflt bound base_sort P newrule stall_exit fuel wfuel a b len <> None.
 Proof. exact SortProofs.qsort_terminates_partial. Qed.
 Print Assumptions qsort_terminates_partial.
+
+(* ---- "terminate and leave a sorted permutation" ----
+   OrderOK: the comparison is total and transitive.  BaseSortOK: the sort used below the cutoff (libc qsort,
+   drf_qsort_dbl/_algt) returns its segment sorted and only rearranged.  SortedSeg a 0 len: a[i] <= a[j] for all
+   i <= j < len.  Fuel is explicit: length + 1. *)
+
+(* hypothesis-free for every array on which the parallel partition loop is not entered: qutil_qsort and
+   qutil_aligned_qsort up to 2*MT_LOOP_CHUNK+1 = 20001 elements (tri-median, sequential partition, pivot rule, recursion) *)
+Theorem qutil_qsort_sorted_permutation_upto_2chunks :
+  forall (V : Type) (leb : V -> V -> bool) (dflt : V) (bound : N) bs cacheline loop_chunk wfuel,
+  OrderOK V leb -> BaseSortOK V leb dflt bound bs ->
+  forall a len, (0 < len)%N -> (len <= 2 * loop_chunk + 1)%N -> (len <= bound)%N ->
+  exists a', qsort_inner V leb dflt bound bs (qutil_params cacheline loop_chunk) (S (N.to_nat len)) wfuel a 0%N len = Some a' /\
+             Permutation (to_list V dflt a bound) (to_list V dflt a' bound) /\
+             SortedSeg V leb dflt a' 0%N len /\ (forall k, (len <= k)%N -> aget V dflt a' k = aget V dflt a k).
+Proof. exact SortCorrect.qutil_qsort_sorted_permutation_upto_2chunks. Qed.
+Print Assumptions qutil_qsort_sorted_permutation_upto_2chunks.
+
+(* ... and qt_qsort on two shepherds, every length *)
+Theorem qt_qsort_sorted_permutation_2sheps :
+  forall (V : Type) (leb : V -> V -> bool) (dflt : V) (bound : N) bs wfuel,
+  OrderOK V leb -> BaseSortOK V leb dflt bound bs ->
+  forall a len, (0 < len)%N -> (len <= bound)%N ->
+  exists a', qsort_inner V leb dflt bound bs (qt_params 2) (S (N.to_nat len)) wfuel a 0%N len = Some a' /\
+             Permutation (to_list V dflt a bound) (to_list V dflt a' bound) /\
+             SortedSeg V leb dflt a' 0%N len /\ (forall k, (len <= k)%N -> aget V dflt a' k = aget V dflt a k).
+Proof. exact SortCorrect.qt_qsort_sorted_permutation_2sheps. Qed.
+Print Assumptions qt_qsort_sorted_permutation_2sheps.
+
+(* every parameter record (the three instances), every length: PARTIAL -- the only unproved ingredient is ONE pass of the
+   strided multi-thread partitioner, the named hypothesis strided_pass_post: the pass returns, rearranges only its
+   sub-array, and its walls (l, r) have everything below l (up to r) <= pivot and everything above r > pivot.
+   Proved around it: the partition loop with its no-progress exit (invariant + gap measure), tri-median, sequential
+   fix-up, pivot-is-maximum rule, the recursion measure (fuel = length + 1) and sortedness.  The loop-level consequence
+   of the hypothesis is evaluated on the extracted model for every generated input above the threshold on every run. *)
+Theorem qsort_returns_sorted_permutation_partial :
+  forall (V : Type) (leb : V -> V -> bool) (dflt : V) (bound : N) bs (P : params) L wfuel,
+  OrderOK V leb -> BaseSortOK V leb dflt bound bs ->
+  strided_pass_post V leb dflt bound P L ->
+  forall a len, (0 < len)%N -> (len <= L)%N -> (len <= bound)%N ->
+  exists a', qsort_inner V leb dflt bound bs P (S (N.to_nat len)) wfuel a 0%N len = Some a' /\
+             Permutation (to_list V dflt a bound) (to_list V dflt a' bound) /\
+             SortedSeg V leb dflt a' 0%N len /\ (forall k, (len <= k)%N -> aget V dflt a' k = aget V dflt a k).
+Proof. exact SortCorrect.qsort_returns_sorted_permutation_pass_inst. Qed.
+Print Assumptions qsort_returns_sorted_permutation_partial.
+
+(* the partition loop from the single pass (segment of length len <= L at base b, any threshold, any walls satisfying
+   the invariant): it returns within gap+1 passes and re-establishes the invariant the fix-up needs *)
+Theorem partition_loop_correct :
+  forall (V : Type) (leb : V -> V -> bool) (dflt : V) (bound : N) (P : params) L b len p thresh,
+  strided_pass_post V leb dflt bound P L -> (len <= L)%N -> (b + len <= bound)%N ->
+  forall wfuel a lw rw, Iinv V leb dflt a b p len lw rw -> (N.to_nat (rw - lw) < wfuel)%nat ->
+  exists a2 lw2 rw2, walls V leb dflt bound P true wfuel a b thresh p lw rw = Some (a2, lw2, rw2) /\
+                     SegRel V dflt a a2 b len /\ Iinv V leb dflt a2 b p len lw2 rw2.
+Proof. exact SortCorrect.walls_spec. Qed.
+Print Assumptions partition_loop_correct.
 
 (* regression (Examples in Util/SortProofs.v): qsort_const_diverged_old -- the code before the pivot rule recurses for ever
    on equal elements (qsort_old_stuck: the mechanism); qsort_stall_old_rule -- the partition loop before the no-progress
